@@ -119,6 +119,66 @@ func runC03(r *Run) {
 	if r.Want("closesend") {
 		c03CloseSendAfterEnd(r)
 	}
+	if r.Want("connfail") {
+		c03ConnFailureIsNotSuccess(r)
+	}
+}
+
+// c03ConnFailureIsNotSuccess: the connection dies in mid-stream (whatever error value the transport
+// reports for it, io.EOF included) while the handler has not returned nil: no receive may report
+// io.EOF, at every position of the stream.
+func c03ConnFailureIsNotSuccess(r *Run) {
+	errs := []error{io.EOF, fmt.Errorf("read: %w", io.EOF), io.ErrUnexpectedEOF, errInjectedRead}
+	for i, e := range errs {
+		for pos := 0; pos < 3; pos++ {
+			for _, method := range []string{mBidi, mSrvStream, mCliStream} {
+				rig := NewRig(RigOpt{Serialise: true})
+				rig.Impl.SetStream(func(m string, ss grpc.ServerStream) error {
+					for j := 0; j < pos; j++ {
+						if m != mCliStream {
+							sendB(ss, []byte("r"))
+						}
+					}
+					<-ss.Context().Done()
+					return status.Error(codes.DataLoss, "connection lost")
+				})
+				in := map[string]any{"error": e.Error(), "position": pos, "method": method}
+				r.Progress("connfail", in)
+				cs, err := rig.CC.NewStream(context.Background(), descOf(method), method)
+				if err != nil {
+					rig.Close()
+					continue
+				}
+				sendB(cs, []byte("m"))
+				got := 0
+				if method != mCliStream {
+					for j := 0; j < pos; j++ {
+						if _, e2 := recvB(cs); e2 == nil {
+							got++
+						}
+					}
+				}
+				rig.CEnd.FailRead(e)
+				var last error
+				ok := within(hangTimeout, func() {
+					for {
+						if _, e2 := recvB(cs); e2 != nil {
+							last = e2
+							return
+						}
+					}
+				})
+				r.Eval(fmt.Sprintf("connfail/%d/%d/%s", i, pos, method), true)
+				r.Count("connfail")
+				if !ok {
+					r.Violate("connfail.hang", "ops", "receive did not return after the connection failed", in, nil, nil)
+				} else if last == io.EOF {
+					r.Violate("connfail.eof", "ops", "stream reported io.EOF (success) although the connection failed and the handler did not return nil", in, "io.EOF", "a non-OK status")
+				}
+				rig.Close()
+			}
+		}
+	}
 }
 
 func c03Product(r *Run) {
